@@ -13,7 +13,8 @@ def main(tier, seed):
     quick = tier == 'quick'
     items = fam_tt.scope_family(seed, 22 if quick else 250)
     items += fam_tt.footprint_family()
-    items += fam_tt.template_family(seed, tier)[::3 if quick else 1]
+    items += fam_tt.template_family(seed, tier, only=fam_tt.SCOPE_TEMPLATES)
+    items += fam_tt.template_family(seed, tier)[::4 if quick else 1]
     items += families.upstream_corpus(skip_tests=('stack_overflow', 'early_stack'))[:0 if quick else 100]
     return rt.standard(PROP, tier, seed, items,
                        'random programs with arrays (literal, dynamic with loop-varying length, passed, aliased) at every depth of '
